@@ -469,6 +469,7 @@ Ltac ceq_auto :=
   | |- ceq _ (link_cur _ _) => eapply ceq_trans; [|apply ceq_add_edge_o]
   | |- ceq _ (add_edge_o _ _ _) => eapply ceq_trans; [|apply ceq_add_edge_o]
   | |- ceq _ (visit true _ _) => eapply ceq_trans; [|apply (proj1 (visit_ceq true))]
+  | |- ceq _ (exc_edge _) => eapply ceq_trans; [|apply ceq_exc_edge]
   | |- ceq ?a (newblock ?X) => change (ceq a X)
   | |- ceq ?a (add_edge _ _ ?X) => change (ceq a X)
   | |- ceq ?a (set_cur _ ?X) => change (ceq a X)
@@ -762,7 +763,7 @@ Section TryFinCase.
             | None => X9 end.
 
   Lemma tf_final : visit true (TryFin body fexc fnorm) st = XF.
-  Proof. reflexivity. Qed.
+  Proof. unfold XF, X9, X9v, X8, X7, d, fexit, X6, X5, FE, X4, X3, X2, X1, EP, B. reflexivity. Qed.
 
   Lemma tf_nb1 : nb X1 = S (S B).
   Proof. unfold X1. change (nb (set_cur (Some EP) (newblock (nextblock st)))) with (S (nb (nextblock st))).
@@ -836,7 +837,9 @@ Section TryFinCase.
 
   Lemma tf_EF : ext XF g. Proof. rewrite tf_final in He. exact He. Qed.
   Lemma tf_E9 : ext X9 g. Proof. eapply ext_back; [apply tf_R9F|apply tf_EF]. Qed.
-  Lemma tf_E9v : ext X9v g. Proof. exact tf_E9. Qed.
+  Lemma tf_I9v : inv X9v. Proof. apply (R_inv 0 X8), visit_R00, tf_I8. Qed.
+  Lemma tf_E9v : ext X9v g.
+  Proof. eapply ext_back; [|apply tf_E9]. apply R_from; [intros Z HZ; unfold X9; RV|exact tf_I9v|lia]. Qed.
   Lemma tf_E8 : ext X8 g. Proof. eapply ext_back; [apply tf_R89|apply tf_E9]. Qed.
   Lemma tf_E7 : ext X7 g. Proof. eapply ext_back; [apply tf_R78|apply tf_E8]. Qed.
   Lemma tf_E6 : ext X6 g. Proof. eapply ext_back; [apply (tf_R67 0); lia|apply tf_E7]. Qed.
@@ -845,4 +848,557 @@ Section TryFinCase.
   Lemma tf_E3 : ext X3 g. Proof. eapply ext_back; [apply (tf_R34 0); lia|apply tf_E4]. Qed.
   Lemma tf_E2 : ext X2 g. Proof. eapply ext_back; [apply (tf_R23 0); lia|apply tf_E3]. Qed.
   Lemma tf_E1 : ext X1 g. Proof. eapply ext_back; [apply (tf_R12 0); lia|apply tf_E2]. Qed.
+
+  Lemma tf_C2 : ceq st X2. Proof. unfold X2, X1. ceq_auto. Qed.
+  Lemma tf_C5 : ceq st X5.
+  Proof.
+    unfold X5. change (ceq st X4). unfold X4.
+    assert (H3 : ceq st X3) by (unfold X3; ceq_auto; apply tf_C2).
+    destruct (cur X3); auto. destruct (excs X3); auto.
+  Qed.
+  Lemma tf_C6 : ceq st X6. Proof. unfold X6. ceq_auto. apply tf_C5. Qed.
+  Lemma tf_excs8 : excs X8 = d :: excs st.
+  Proof.
+    unfold X8. destruct (ceq_nextblock_from None (add_edge B EP (set_cur (Some B) X7))) as [_ E].
+    unfold nextblock. rewrite E. simpl. rewrite excs_push_loop_exc. f_equal. apply tf_C6.
+  Qed.
+  Lemma tf_loops8 : loops X8 = loops (push_loop_exc d X6).
+  Proof.
+    unfold X8. destruct (ceq_nextblock_from None (add_edge B EP (set_cur (Some B) X7))) as [E _].
+    unfold nextblock. rewrite E. reflexivity.
+  Qed.
+  Lemma tf_inl8 : inl X8 = inl st.
+  Proof.
+    unfold inl. rewrite tf_loops8. destruct tf_C6 as [CL _]. rewrite <- CL. unfold push_loop_exc.
+    destruct (loops X6) eqn:E6; simpl; rewrite ?E6; reflexivity.
+  Qed.
+
+  Lemma tf_lenEP : len X1 EP = 0.
+  Proof.
+    unfold X1. change (len (set_cur (Some EP) (newblock (nextblock st))) EP) with (len (nextblock st) EP).
+    apply len_fresh; [exact (R_inv 0 st _ (R_nextblock _ _ _ (R0 _ Hi)))|].
+    rewrite nb_nextblock. unfold EP. lia.
+  Qed.
+
+  (* whatever reaches the exception entry of the try/finally also reaches the enclosing handler *)
+  Lemma tf_outer s1 : P g EP 0 s1 -> at_cur g X2 s1 /\ Kexc g (excs st) s1.
+  Proof.
+    intros HP. assert (A1 : at_cur g X1 s1).
+    { exists EP. split; [reflexivity|]. now rewrite tf_lenEP. }
+    destruct (exc_edge_sound g X1 s1 tf_I1 tf_E2 A1) as [A2 K2]. split; auto.
+    assert (E1 : excs X1 = excs st) by (unfold X1; simpl; apply (ceq_nextblock_from None st)).
+    now rewrite E1 in K2.
+  Qed.
+
+  Lemma tf_enter_body : at_cur g X8 sg /\ P g EP 0 sg.
+  Proof.
+    destruct HA as (b0 & Hc & HP).
+    assert (PB : P g B 0 sg).
+    { eapply P_edge_ext; [|apply tf_E1|exact HP]. unfold X1, nextblock, nextblock_from, link_cur. simpl.
+      rewrite Hc. simpl. left. reflexivity. }
+    destruct tf_lenB as [LB CB].
+    set (Y := add_edge B EP (set_cur (Some B) X7)).
+    assert (IY : inv Y) by (apply (R_inv 0 X7), R_add_edge, R_set_cur_some; [lia|apply tf_B_lt|apply R0, tf_I7]).
+    assert (EY : ext Y g) by (eapply ext_back; [|apply tf_E8]; apply R_nextblock, R0, IY).
+    assert (AY : at_cur g Y sg).
+    { exists B. split; [reflexivity|]. change (len Y B) with (len X7 B). now rewrite LB. }
+    split.
+    - apply at_cur_nextblock; auto. apply tf_E8.
+    - eapply P_edge_ext; [|exact EY|]. { unfold Y. simpl. left. reflexivity. }
+      change (len (set_cur (Some B) X7) B) with (len X7 B). now rewrite LB.
+  Qed.
+
+  Lemma tf_lenFE : len X5 FE = 0.
+  Proof. change (len X5 FE) with (len X4 FE). apply len_fresh; [apply tf_I4|unfold FE; lia]. Qed.
+
+  Lemma tf_incl_3F : incl (eds X3) (eds XF).
+  Proof.
+    apply ext_edges. eapply ext_trans; [apply (R_ext 0), tf_R34; lia|].
+    eapply ext_trans; [apply (R_ext 0), tf_R45; lia|]. eapply ext_trans; [apply (R_ext 0), tf_R56; lia|].
+    eapply ext_trans; [apply (R_ext 0), tf_R67; lia|]. eapply ext_trans; [apply (R_ext 0), tf_R78|].
+    eapply ext_trans; [apply (R_ext 0), tf_R89|apply (R_ext 0), tf_R9F].
+  Qed.
+  Lemma tf_incl_6F : incl (eds X6) (eds XF).
+  Proof.
+    apply ext_edges. eapply ext_trans; [apply (R_ext 0), tf_R67; lia|]. eapply ext_trans; [apply (R_ext 0), tf_R78|].
+    eapply ext_trans; [apply (R_ext 0), tf_R89|apply (R_ext 0), tf_R9F].
+  Qed.
+
+  (* the try body raised: the exception copy of the finally clause runs *)
+  Lemma tf_exc t1 s1 t2 o2 s2 : sim_stmt body sg t1 OExc s1 -> sim_stmt fexc s1 t2 o2 s2 ->
+    Forall (justified g) (t1 ++ t2) /\
+    post g st (visit true (TryFin body fexc fnorm) st) (fin_out OExc o2) s2.
+  Proof.
+    intros IHb IHe. destruct tf_enter_body as [A8 PE].
+    assert (Hw8 : wf (inl X8) body = true).
+    { rewrite tf_inl8. simpl in Hw. apply andb_true_iff in Hw. destruct Hw as [Hw' _].
+      apply andb_true_iff in Hw'. tauto. }
+    assert (K8 : Kexc g (excs X8) sg) by (rewrite tf_excs8; exact PE).
+    destruct (IHb X8 g tf_I8 Hw8 tf_E9v A8 K8) as [J1 [K9 _]].
+    rewrite tf_excs8 in K9. simpl in K9.
+    destruct (tf_outer s1 K9) as [A2 K2].
+    destruct tf_C2 as [CL CE].
+    assert (Hw2 : wf (inl X2) fexc = true).
+    { rewrite (inl_eq X2 st CL). simpl in Hw. apply andb_true_iff in Hw. destruct Hw as [Hw' _].
+      apply andb_true_iff in Hw'. tauto. }
+    assert (K2' : Kexc g (excs X2) s1) by (rewrite CE; exact K2).
+    destruct (IHe X2 g tf_I2 Hw2 tf_E3 A2 K2') as [J2 P3]. fold X3 in P3.
+    split; [apply Forall_app; auto|].
+    apply (post_ctx g st X2) in P3; auto. rewrite tf_final.
+    destruct o2; simpl.
+    - destruct P3 as [K3 _]. split; auto.
+    - eapply post_mono; [apply tf_incl_3F|discriminate|exact P3].
+    - eapply post_mono; [apply tf_incl_3F|discriminate|exact P3].
+    - eapply post_mono; [apply tf_incl_3F|discriminate|exact P3].
+    - eapply post_mono; [apply tf_incl_3F|discriminate|exact P3].
+  Qed.
+
+  Lemma tf_cur9 : cur X9 = cur X9v.
+  Proof. unfold X9, pop_loop_exc. simpl. destruct (loops X9v); reflexivity. Qed.
+  Lemma tf_sts9 : sts X9 = sts X9v.
+  Proof. unfold X9, pop_loop_exc. simpl. destruct (loops X9v); reflexivity. Qed.
+  Lemma tf_eds9 : eds X9 = eds X9v.
+  Proof. unfold X9, pop_loop_exc. simpl. destruct (loops X9v); reflexivity. Qed.
+  Lemma tf_incl_9F : incl (eds X9v) (eds XF).
+  Proof. rewrite <- tf_eds9. apply ext_edges, (R_ext 0), tf_R9F. Qed.
+
+  (* what the finally clause has to deliver once it completes, for each way of leaving the body *)
+  Definition tf_cont (o1 : out) : Prop :=
+    forall fxb k s2, fexit = Some (fxb, k) -> P g fxb k s2 -> Kexc g (excs st) s2 -> post g st XF o1 s2.
+
+  Lemma tf_leave o1 s1 : o1 <> OExc -> post g X8 X9v o1 s1 -> P g FE 0 s1 /\ tf_cont o1.
+  Proof.
+    intros Ho [K9 P9]. destruct tf_C6 as [CL6 CE6].
+    destruct o1; try congruence.
+    - (* the body completed *)
+      destruct P9 as (b9 & Hc9 & HP9).
+      assert (Hc : cur X9 = Some b9) by (rewrite tf_cur9; exact Hc9).
+      assert (HL : len X9 b9 = len X9v b9) by (unfold len; now rewrite tf_sts9).
+      split.
+      + eapply P_edge_ext; [|apply tf_EF|exact HP9]. unfold XF. rewrite Hc. cbv zeta. rewrite <- HL.
+        destruct fexit as [[fxb k]|]; simpl; auto.
+      + intros fxb k s2 Hf HP2 HK2. split; auto. unfold XF. rewrite Hc, Hf. cbv zeta.
+        exists (nb X9). split; [reflexivity|].
+        match goal with |- P g _ (len ?Y _) _ => change (len Y (nb X9)) with (len X9 (nb X9)) end.
+        rewrite (len_fresh X9); [|apply tf_I9|lia].
+        eapply P_edge_ext; [|apply tf_EF|exact HP2]. unfold XF. rewrite Hc, Hf. cbv zeta. simpl. auto.
+    - (* break *)
+      rewrite tf_loops8 in P9. unfold push_loop_exc in P9. rewrite CL6 in P9.
+      destruct (loops st) as [|L r] eqn:EL; [simpl in P9; rewrite CL6 in P9; contradiction|].
+      simpl in P9. cbn [chain x_fin d] in P9.
+      destruct fexit as [[fxb k]|] eqn:Ef.
+      + destruct P9 as [PF PC]. split; auto. intros fxb' k' s2 Hf HP2 HK2. rewrite Ef in Hf. inversion Hf; subst.
+        split; auto. rewrite EL. eapply chain_impl; [|apply PC, HP2].
+        intros s [A Bp]. split; auto. eapply hp_mono; [apply tf_incl_9F|exact Bp].
+      + split; auto. intros fxb' k' s2 Hf. rewrite Ef in Hf. discriminate.
+    - (* continue *)
+      rewrite tf_loops8 in P9. unfold push_loop_exc in P9. rewrite CL6 in P9.
+      destruct (loops st) as [|L r] eqn:EL; [simpl in P9; rewrite CL6 in P9; contradiction|].
+      simpl in P9. cbn [chain x_fin d] in P9.
+      destruct fexit as [[fxb k]|] eqn:Ef.
+      + destruct P9 as [PF PC]. split; auto. intros fxb' k' s2 Hf HP2 HK2. rewrite Ef in Hf. inversion Hf; subst.
+        split; auto. rewrite EL. apply PC, HP2.
+      + split; auto. intros fxb' k' s2 Hf. rewrite Ef in Hf. discriminate.
+    - (* return *)
+      rewrite tf_excs8 in P9. simpl in P9. cbn [chain x_fin d] in P9.
+      destruct fexit as [[fxb k]|] eqn:Ef.
+      + destruct P9 as [PF PC]. split; auto. intros fxb' k' s2 Hf HP2 HK2. rewrite Ef in Hf. inversion Hf; subst.
+        split; auto.
+      + split; auto. intros fxb' k' s2 Hf. rewrite Ef in Hf. discriminate.
+  Qed.
+
+  Lemma tf_other t1 o1 s1 t2 o2 s2 : o1 <> OExc ->
+    sim_stmt body sg t1 o1 s1 -> sim_stmt fnorm s1 t2 o2 s2 ->
+    Forall (justified g) (t1 ++ t2) /\
+    post g st (visit true (TryFin body fexc fnorm) st) (fin_out o1 o2) s2.
+  Proof.
+    intros Ho IHb IHn. destruct tf_enter_body as [A8 PE].
+    assert (Hw8 : wf (inl X8) body = true).
+    { rewrite tf_inl8. simpl in Hw. apply andb_true_iff in Hw. destruct Hw as [Hw' _].
+      apply andb_true_iff in Hw'. tauto. }
+    assert (K8 : Kexc g (excs X8) sg) by (rewrite tf_excs8; exact PE).
+    destruct (IHb X8 g tf_I8 Hw8 tf_E9v A8 K8) as [J1 P9]. fold X9v in P9.
+    pose proof P9 as [K9 _]. rewrite tf_excs8 in K9. simpl in K9.
+    destruct (tf_outer s1 K9) as [_ K2].
+    destruct (tf_leave o1 s1 Ho P9) as [PF Cont].
+    destruct tf_C5 as [CL CE].
+    assert (Hw5 : wf (inl X5) fnorm = true).
+    { rewrite (inl_eq X5 st CL). simpl in Hw. apply andb_true_iff in Hw. tauto. }
+    assert (K5 : Kexc g (excs X5) s1) by (rewrite CE; exact K2).
+    assert (A5 : at_cur g X5 s1).
+    { exists FE. split; [reflexivity|]. now rewrite tf_lenFE. }
+    destruct (IHn X5 g tf_I5 Hw5 tf_E6 A5 K5) as [J2 P6]. fold X6 in P6.
+    split; [apply Forall_app; auto|].
+    apply (post_ctx g st X5) in P6; auto. rewrite tf_final.
+    destruct o2; simpl.
+    - destruct P6 as [K6 (fxb & Hc6 & HP6)].
+      apply (Cont fxb (len X6 fxb)); auto. unfold fexit. now rewrite Hc6.
+    - eapply post_mono; [apply tf_incl_6F|discriminate|exact P6].
+    - eapply post_mono; [apply tf_incl_6F|discriminate|exact P6].
+    - eapply post_mono; [apply tf_incl_6F|discriminate|exact P6].
+    - eapply post_mono; [apply tf_incl_6F|discriminate|exact P6].
+  Qed.
 End TryFinCase.
+
+Lemma sim_tryfin_exc body fexc fnorm sg t1 s1 t2 o2 s2 :
+  sim_stmt body sg t1 OExc s1 -> sim_stmt fexc s1 t2 o2 s2 ->
+  sim_stmt (TryFin body fexc fnorm) sg (t1 ++ t2) (fin_out OExc o2) s2.
+Proof. intros IHb IHe st g Hi Hw He HA HK. eapply tf_exc; eauto. Qed.
+Lemma sim_tryfin_other body fexc fnorm sg t1 o1 s1 t2 o2 s2 : o1 <> OExc ->
+  sim_stmt body sg t1 o1 s1 -> sim_stmt fnorm s1 t2 o2 s2 ->
+  sim_stmt (TryFin body fexc fnorm) sg (t1 ++ t2) (fin_out o1 o2) s2.
+Proof. intros Ho IHb IHn st g Hi Hw He HA HK. eapply tf_other; eauto. Qed.
+
+(* ------------------------------------------------------------------ loops *)
+Lemma refs_pass g c : forall X sg, inv X -> ext (refs c X) g -> at_cur g X sg -> at_cur g (refs c X) sg.
+Proof.
+  induction c as [|[l e] c IH]; intros X sg Hi He HA; simpl in *; auto.
+  assert (R1 : R 0 X (v_ref l e X)) by (apply R_v_ref, R0, Hi).
+  assert (R2 : R 0 (v_ref l e X) (refs c (v_ref l e X))) by (apply R_refs, R0, (R_inv _ _ _ R1)).
+  apply IH; [exact (R_inv _ _ _ R1)|exact He|].
+  apply (v_ref_sound g X l e sg); auto. eapply ext_back; eauto.
+Qed.
+
+Lemma cur_refs c : forall X, cur (refs c X) = cur X.
+Proof.
+  induction c as [|r c IH]; intros X; simpl; auto. rewrite IH. unfold v_ref, append.
+  destruct (cur X) eqn:E; simpl; auto.
+Qed.
+
+Definition sim_loop f c tg body h el (sg : state) (tr : list event) (o : out) (s2 : state) : Prop :=
+  forall st g, inv st -> wf (inl st) (Loop f c tg body h el) = true ->
+    ext (visit true (Loop f c tg body h el) st) g ->
+    P g (nb st) 0 sg -> Kexc g (excs st) sg ->
+    Forall (justified g) tr /\ post g st (visit true (Loop f c tg body h el) st) o s2.
+
+Section LoopCase.
+  Variables (isfor : bool) (c tg : list nref) (body : stmt) (hasel : bool) (el : stmt).
+  Variables (st g : bst).
+  Hypothesis Hi : inv st.
+  Hypothesis Hw : wf (inl st) (Loop isfor c tg body hasel el) = true.
+  Hypothesis He : ext (visit true (Loop isfor c tg body hasel el) st) g.
+
+  Local Definition LC := nb st.
+  Local Definition LN := S (nb st).
+  Local Definition Y2 := newblock (nextblock st).
+  Local Definition Y3 := push_loop (mk_loopd LN LC []) Y2.
+  Local Definition Y4 := refs c Y3.
+  Local Definition Y5 := nextblock Y4.
+  Local Definition Y6 := if isfor then nextblock (asgs tg Y5) else Y5.
+  Local Definition Y7v := visit true body Y6.
+  Local Definition Y7 := pop_loop Y7v.
+  Local Definition Y8 := match cur Y7 with
+            | Some b => let s1 := add_edge b LC Y7 in if isfor then s1 else add_edge b LN s1
+            | None => Y7 end.
+  Local Definition Y9 := if hasel then link_cur LN (visit true el (nextblock_from (cur Y4) Y8))
+            else add_edge_o (cur Y4) LN Y8.
+
+  Lemma lp_final : visit true (Loop isfor c tg body hasel el) st = cur_if_parents LN Y9.
+  Proof. unfold Y9, Y8, Y7, Y7v, Y6, Y5, Y4, Y3, Y2, LN, LC. reflexivity. Qed.
+
+  Lemma lp_nb2 : nb Y2 = S LN.
+  Proof. unfold Y2. change (nb (newblock (nextblock st))) with (S (nb (nextblock st))). now rewrite nb_nextblock. Qed.
+  Lemma lp_I2 : inv Y2.
+  Proof. apply (R_inv 0 st). unfold Y2. apply R_newblock, R_nextblock, R0, Hi. Qed.
+  Lemma lp_R24 n : n <= nb Y2 -> R n Y2 Y4.
+  Proof. intros. apply R_from; [intros Z HZ; unfold Y4, Y3; RV|exact lp_I2|auto]. Qed.
+  Lemma lp_I4 : inv Y4. Proof. exact (R_inv _ _ _ (lp_R24 0 ltac:(lia))). Qed.
+  Lemma lp_nb4 : nb Y2 <= nb Y4. Proof. apply (R_nb 0 Y2 Y4), lp_R24. lia. Qed.
+  Lemma lp_R45 n : n <= nb Y4 -> R n Y4 Y5.
+  Proof. intros. apply R_from; [intros Z HZ; unfold Y5; RV|exact lp_I4|auto]. Qed.
+  Lemma lp_I5 : inv Y5. Proof. exact (R_inv _ _ _ (lp_R45 0 ltac:(lia))). Qed.
+  Lemma lp_nb5 : nb Y5 = S (nb Y4). Proof. unfold Y5. apply nb_nextblock. Qed.
+  Lemma lp_R56 n : n <= nb Y5 -> R n Y5 Y6.
+  Proof. intros. apply R_from; [intros Z HZ; unfold Y6; destruct isfor; RV|exact lp_I5|auto]. Qed.
+  Lemma lp_I6 : inv Y6. Proof. exact (R_inv _ _ _ (lp_R56 0 ltac:(lia))). Qed.
+  Lemma lp_nb6 : nb Y5 <= nb Y6. Proof. apply (R_nb 0 Y5 Y6), lp_R56. lia. Qed.
+  Lemma lp_R67 n : n <= nb Y6 -> R n Y6 Y7.
+  Proof. intros. apply R_from; [intros Z HZ; unfold Y7, Y7v; RV|exact lp_I6|auto]. Qed.
+  Lemma lp_I7 : inv Y7. Proof. exact (R_inv _ _ _ (lp_R67 0 ltac:(lia))). Qed.
+  Lemma lp_nb7 : nb Y6 <= nb Y7. Proof. apply (R_nb 0 Y6 Y7), lp_R67. lia. Qed.
+  Lemma lp_R78 n : n <= nb Y7 -> R n Y7 Y8.
+  Proof. intros. apply R_from; [intros Z HZ; unfold Y8; destruct (cur Y7); [destruct isfor|]; cbv zeta; RV|exact lp_I7|auto]. Qed.
+  Lemma lp_I8 : inv Y8. Proof. exact (R_inv _ _ _ (lp_R78 0 ltac:(lia))). Qed.
+  Lemma lp_nb8 : nb Y7 <= nb Y8. Proof. apply (R_nb 0 Y7 Y8), lp_R78. lia. Qed.
+  Lemma lp_R89 n : n <= nb Y8 -> R n Y8 Y9.
+  Proof. intros. apply R_from; [intros Z HZ; unfold Y9; destruct hasel; RV|exact lp_I8|auto]. Qed.
+  Lemma lp_I9 : inv Y9. Proof. exact (R_inv _ _ _ (lp_R89 0 ltac:(lia))). Qed.
+
+  Lemma lp_E9 : ext Y9 g.
+  Proof. rewrite lp_final in He. eapply ext_trans; [|exact He]. split; [exists []; reflexivity|apply incl_refl]. Qed.
+  Lemma lp_E8 : ext Y8 g. Proof. eapply ext_back; [apply (lp_R89 0); lia|apply lp_E9]. Qed.
+  Lemma lp_E7 : ext Y7 g. Proof. eapply ext_back; [apply (lp_R78 0); lia|apply lp_E8]. Qed.
+  Lemma lp_E7v : ext Y7v g. Proof. exact lp_E7. Qed.
+  Lemma lp_E6 : ext Y6 g. Proof. eapply ext_back; [apply (lp_R67 0); lia|apply lp_E7]. Qed.
+  Lemma lp_E5 : ext Y5 g. Proof. eapply ext_back; [apply (lp_R56 0); lia|apply lp_E6]. Qed.
+  Lemma lp_E4 : ext Y4 g. Proof. eapply ext_back; [apply (lp_R45 0); lia|apply lp_E5]. Qed.
+  Lemma lp_E2 : ext Y2 g. Proof. eapply ext_back; [apply (lp_R24 0); lia|apply lp_E4]. Qed.
+
+  Lemma lp_cur4 : cur Y4 = Some LC.
+  Proof. unfold Y4. rewrite cur_refs. reflexivity. Qed.
+
+  (* next_block never receives statements *)
+  Lemma lp_lenN : len Y9 LN = 0.
+  Proof.
+    pose proof lp_nb2. pose proof lp_nb4. pose proof lp_nb5. pose proof lp_nb6. pose proof lp_nb7. pose proof lp_nb8.
+    assert (H29 : R (S LN) Y2 Y9).
+    { eapply R_trans; [apply lp_R24; lia|]. eapply R_trans; [apply lp_R45; lia|].
+      eapply R_trans; [apply lp_R56; lia|]. eapply R_trans; [apply lp_R67; lia|].
+      eapply R_trans; [apply lp_R78; lia|apply lp_R89; lia]. }
+    rewrite (len_frame _ _ _ LN H29); [|lia|].
+    - unfold Y2. change (len (newblock (nextblock st)) LN) with (len (nextblock st) LN).
+      unfold nextblock. rewrite len_nextblock_from. apply len_fresh; auto. unfold LN. lia.
+    - unfold Y2, LN. simpl. intros E. inversion E. lia.
+  Qed.
+
+  (* the condition block keeps its statements while the body is built *)
+  Lemma lp_lenC : len Y8 LC = len Y4 LC.
+  Proof.
+    pose proof lp_nb2. pose proof lp_nb4. pose proof lp_nb5. pose proof lp_nb6. pose proof lp_nb7.
+    assert (H58 : R (nb Y5) Y5 Y8).
+    { eapply R_trans; [apply lp_R56; lia|]. eapply R_trans; [apply lp_R67; lia|apply lp_R78; lia]. }
+    rewrite (len_frame _ _ _ LC H58).
+    - unfold Y5, nextblock. apply len_nextblock_from.
+    - unfold LC, LN in *. lia.
+    - unfold Y5. simpl. intros E. inversion E. unfold LC, LN in *. lia.
+  Qed.
+
+  Lemma lp_ceq6 : loops Y6 = mk_loopd LN LC [] :: loops st /\ excs Y6 = excs st.
+  Proof.
+    assert (H3 : loops Y3 = mk_loopd LN LC [] :: loops st /\ excs Y3 = excs st).
+    { unfold Y3, Y2. destruct (ceq_nextblock_from None st) as [A B']. split.
+      - change (mk_loopd LN LC [] :: loops (nextblock st) = mk_loopd LN LC [] :: loops st). f_equal. exact A.
+      - change (excs (nextblock st) = excs st). exact B'. }
+    assert (H36 : ceq Y3 Y6) by (unfold Y6, Y5, Y4; destruct isfor; ceq_auto).
+    destruct H36 as [A B']. destruct H3. split; congruence.
+  Qed.
+  Lemma lp_ceq8 : ceq st Y8.
+  Proof.
+    assert (H7 : ceq st Y7).
+    { destruct lp_ceq6 as [A B']. destruct (proj1 (visit_ceq true) body Y6) as [A2 B2]. fold Y7v in A2, B2.
+      unfold Y7. split; simpl; [rewrite A2, A; reflexivity|congruence]. }
+    unfold Y8. destruct (cur Y7); auto. cbv zeta. destruct isfor; exact H7.
+  Qed.
+
+  (* from the loop head through the condition *)
+  Lemma lp_head sg : P g LC 0 sg -> at_cur g Y4 sg.
+  Proof.
+    intros HP. unfold Y4. apply refs_pass; [exact (R_inv 0 Y2 Y3 (R_push_loop _ _ _ _ (R0 _ lp_I2)))|apply lp_E4|].
+    exists LC. split; [reflexivity|].
+    assert (L0 : len Y3 LC = 0).
+    { unfold Y3, Y2. change (len (push_loop (mk_loopd LN LC []) (newblock (nextblock st))) LC) with (len (nextblock st) LC).
+      unfold nextblock. rewrite len_nextblock_from. apply len_fresh; auto. }
+    now rewrite L0.
+  Qed.
+  Lemma lp_head_ev sg tr ok : P g LC 0 sg -> eval_refs sg c tr ok -> Forall (justified g) tr.
+  Proof.
+    intros HP Hev. unfold Y4.
+    assert (A3 : at_cur g Y3 sg).
+    { exists LC. split; [reflexivity|].
+      assert (L0 : len Y3 LC = 0).
+      { unfold Y3, Y2. change (len (push_loop (mk_loopd LN LC []) (newblock (nextblock st))) LC) with (len (nextblock st) LC).
+        unfold nextblock. rewrite len_nextblock_from. apply len_fresh; auto. }
+      now rewrite L0. }
+    eapply (refs_sound g c Y3 sg tr ok); eauto.
+    - exact (R_inv 0 Y2 Y3 (R_push_loop _ _ _ _ (R0 _ lp_I2))).
+    - apply lp_E4.
+  Qed.
+  Lemma lp_head_eval sg tr ok : P g LC 0 sg -> head_eval isfor sg c tr ok -> Forall (justified g) tr.
+  Proof.
+    unfold head_eval. intros HP H. destruct (Bool.bool_dec isfor true) as [E|E].
+    - rewrite E in H. destruct H as [-> _]. constructor.
+    - apply Bool.not_true_is_false in E. rewrite E in H. eapply lp_head_ev; eauto.
+  Qed.
+
+  Lemma lp_exc sg tr : P g LC 0 sg -> Kexc g (excs st) sg -> head_eval isfor sg c tr false ->
+    Forall (justified g) tr /\ post g st (visit true (Loop isfor c tg body hasel el) st) OExc sg.
+  Proof. intros HP HK H. split; [eapply lp_head_eval; eauto|split; auto]. Qed.
+
+  Lemma lp_P_end sg : P g LC 0 sg -> P g LC (len Y8 LC) sg.
+  Proof. intros HP. destruct (lp_head sg HP) as (b & Hc & HPb). rewrite lp_cur4 in Hc. inversion Hc; subst.
+    now rewrite lp_lenC. Qed.
+
+  Lemma lp_exit sg t1 : hasel = false -> P g LC 0 sg -> Kexc g (excs st) sg ->
+    head_eval isfor sg c t1 true ->
+    Forall (justified g) t1 /\ post g st (visit true (Loop isfor c tg body hasel el) st) ONorm sg.
+  Proof.
+    intros Hh HP HK H. split; [eapply lp_head_eval; eauto|]. split; auto.
+    rewrite lp_final. pose proof lp_E9 as E9. pose proof lp_lenN as HLN. unfold Y9 in E9, HLN |- *.
+    rewrite Hh, lp_cur4 in E9, HLN |- *. simpl in E9, HLN |- *.
+    destruct (add_edge_sound g Y8 LC LN sg E9 (lp_P_end sg HP)) as [PN HPn]. apply cip_sound; auto.
+  Qed.
+
+  Lemma lp_else sg t1 t2 o s2 : hasel = true -> P g LC 0 sg -> Kexc g (excs st) sg ->
+    head_eval isfor sg c t1 true -> sim_stmt el sg t2 o s2 ->
+    Forall (justified g) (t1 ++ t2) /\ post g st (visit true (Loop isfor c tg body hasel el) st) o s2.
+  Proof.
+    intros Hh HP HK H IH.
+    pose proof lp_E9 as E9. pose proof lp_lenN as HLN. unfold Y9 in E9, HLN. rewrite Hh, lp_cur4 in E9, HLN.
+    set (Y := nextblock_from (Some LC) Y8) in *.
+    assert (RY : R 0 Y8 Y) by (apply R_from; [intros; unfold Y; RV|exact lp_I8|lia]).
+    assert (RV1 : R 0 Y (visit true el Y)) by (apply visit_R00, (R_inv _ _ _ RY)).
+    assert (RL : R 0 (visit true el Y) (link_cur LN (visit true el Y))) by (apply R_link_cur, R0, (R_inv _ _ _ RV1)).
+    assert (EV : ext (visit true el Y) g) by (eapply ext_back; eauto).
+    assert (EY : ext Y g) by (eapply ext_back; eauto).
+    assert (HC : LC < nb Y8).
+    { pose proof lp_nb2. pose proof lp_nb4. pose proof lp_nb5. pose proof lp_nb6. pose proof lp_nb7. pose proof lp_nb8.
+      unfold LC, LN in *. lia. }
+    assert (AY : at_cur g Y sg) by (apply at_cur_nextblock_from; auto; [apply lp_I8|apply lp_P_end; auto]).
+    assert (CY : ceq st Y) by (unfold Y; ceq_auto; apply lp_ceq8).
+    destruct CY as [CL CE].
+    assert (HwY : wf (inl Y) el = true).
+    { rewrite (inl_eq Y st CL). simpl in Hw. apply andb_true_iff in Hw. tauto. }
+    assert (KY : Kexc g (excs Y) sg) by (rewrite CE; exact HK).
+    destruct (IH Y g (R_inv _ _ _ RY) HwY EV AY KY) as [J2 PV].
+    split; [apply Forall_app; split; auto; eapply lp_head_eval; eauto|].
+    apply (post_ctx g st Y) in PV; auto.
+    rewrite lp_final. unfold Y9. rewrite Hh, lp_cur4. fold Y.
+    destruct o.
+    - destruct PV as [KV AV].
+      destruct (link_cur_sound g _ LN s2 E9 AV) as [PN HPn].
+      split; auto. apply cip_sound; auto.
+    - eapply post_mono; [| |exact PV]; [|discriminate]. apply ext_edges, (R_ext _ _ _ RL).
+    - eapply post_mono; [| |exact PV]; [|discriminate]. apply ext_edges, (R_ext _ _ _ RL).
+    - eapply post_mono; [| |exact PV]; [|discriminate]. apply ext_edges, (R_ext _ _ _ RL).
+    - eapply post_mono; [| |exact PV]; [|discriminate]. apply ext_edges, (R_ext _ _ _ RL).
+  Qed.
+
+  Lemma lp_excs5 : excs Y5 = excs st.
+  Proof.
+    assert (H : ceq Y3 Y5) by (unfold Y5, Y4; ceq_auto). destruct H as [_ H]. rewrite H.
+    unfold Y3, Y2. change (excs (nextblock st) = excs st). apply (ceq_nextblock_from None st).
+  Qed.
+
+  Lemma lp_body_entry sg : P g LC 0 sg -> Kexc g (excs st) sg ->
+    at_cur g Y6 (if isfor then bind tg sg else sg) /\ Kexc g (excs st) (if isfor then bind tg sg else sg).
+  Proof.
+    intros HP HK. pose proof (lp_head sg HP) as A4.
+    assert (A5 : at_cur g Y5 sg) by (apply at_cur_nextblock; [apply lp_I4|apply lp_E5|exact A4]).
+    pose proof lp_E6 as E6. unfold Y6 in *. destruct (Bool.bool_dec isfor true) as [E|E].
+    - rewrite E in E6 |- *.
+      assert (RA : R 0 Y5 (asgs tg Y5)) by (apply R_asgs, R0, lp_I5).
+      assert (RN : R 0 (asgs tg Y5) (nextblock (asgs tg Y5))) by (apply R_nextblock, R0, (R_inv _ _ _ RA)).
+      assert (EA : ext (asgs tg Y5) g) by (eapply ext_back; eauto).
+      assert (K5 : Kexc g (excs Y5) sg) by (rewrite lp_excs5; exact HK).
+      destruct (asgs_sound g tg Y5 sg lp_I5 EA A5 K5) as [AA KA]. rewrite lp_excs5 in KA.
+      split; auto. apply at_cur_nextblock; auto. exact (R_inv _ _ _ RA).
+    - apply Bool.not_true_is_false in E. rewrite E in E6 |- *. auto.
+  Qed.
+
+  Lemma lp_inl6 : inl Y6 = true.
+  Proof. unfold inl. destruct lp_ceq6 as [A _]. now rewrite A. Qed.
+
+  Lemma lp_incl_7F : incl (eds Y7v) (eds (cur_if_parents LN Y9)).
+  Proof.
+    change (incl (eds Y7) (eds Y9)). apply ext_edges.
+    eapply ext_trans; [apply (R_ext 0), lp_R78; lia|apply (R_ext 0), lp_R89; lia].
+  Qed.
+
+  (* one execution of the body, started at the loop head *)
+  Lemma lp_body sg t1 t2 ob s1 : P g LC 0 sg -> Kexc g (excs st) sg ->
+    head_eval isfor sg c t1 true ->
+    sim_stmt body (if isfor then bind tg sg else sg) t2 ob s1 ->
+    Forall (justified g) (t1 ++ t2) /\ Kexc g (excs st) s1 /\
+    match ob with
+    | ONorm | OCont => P g LC 0 s1
+    | OBrk => at_cur g (cur_if_parents LN Y9) s1
+    | ORet => chain g (excs st) (fun s => P g 1 0 s) s1
+    | OExc => True
+    end.
+  Proof.
+    intros HP HK H IH. destruct (lp_body_entry sg HP HK) as [A6 K6].
+    assert (Hw6 : wf (inl Y6) body = true).
+    { rewrite lp_inl6. simpl in Hw. apply andb_true_iff in Hw. tauto. }
+    destruct lp_ceq6 as [CL6 CE6].
+    assert (K6' : Kexc g (excs Y6) (if isfor then bind tg sg else sg)) by (rewrite CE6; exact K6).
+    destruct (IH Y6 g lp_I6 Hw6 lp_E7v A6 K6') as [J2 [K7 P7]]. fold Y7v in P7.
+    rewrite CE6 in K7.
+    split; [apply Forall_app; split; auto; eapply lp_head_eval; eauto|]. split; auto.
+    destruct ob; auto.
+    - (* end of the body: back edge *)
+      destruct P7 as (b & Hc & HPb).
+      assert (Hc7 : cur Y7 = Some b) by exact Hc.
+      eapply P_edge_ext; [|apply lp_E8|exact HPb].
+      unfold Y8. rewrite Hc7. cbv zeta. change (len Y7 b) with (len Y7v b).
+      destruct (Bool.bool_dec isfor true) as [E|E].
+      + rewrite E. simpl. auto.
+      + apply Bool.not_true_is_false in E. rewrite E. simpl. auto.
+    - (* break: next_block *)
+      rewrite CL6 in P7. simpl in P7. destruct P7 as [PN HPn].
+      apply cip_sound; auto; [apply lp_lenN|]. eapply hp_mono; [apply lp_incl_7F|exact HPn].
+    - (* continue *)
+      rewrite CL6 in P7. simpl in P7. exact P7.
+    - rewrite CE6 in P7. exact P7.
+  Qed.
+End LoopCase.
+
+Lemma sim_loop_exc f c tg body h el sg tr : head_eval f sg c tr false ->
+  sim_loop f c tg body h el sg tr OExc sg.
+Proof. intros H st g Hi Hw He HP HK. eapply lp_exc; eauto. Qed.
+Lemma sim_loop_exit f c tg body el sg t1 : head_eval f sg c t1 true ->
+  sim_loop f c tg body false el sg t1 ONorm sg.
+Proof. intros H st g Hi Hw He HP HK. eapply lp_exit; eauto. Qed.
+Lemma sim_loop_else f c tg body el sg t1 t2 o s2 : head_eval f sg c t1 true -> sim_stmt el sg t2 o s2 ->
+  sim_loop f c tg body true el sg (t1 ++ t2) o s2.
+Proof. intros H IH st g Hi Hw He HP HK. eapply lp_else; eauto. Qed.
+Lemma sim_loop_iter f c tg body h el sg t1 t2 ob s1 t3 o s2 : head_eval f sg c t1 true ->
+  sim_stmt body (if f then bind tg sg else sg) t2 ob s1 -> ob = ONorm \/ ob = OCont ->
+  sim_loop f c tg body h el s1 t3 o s2 -> sim_loop f c tg body h el sg (t1 ++ t2 ++ t3) o s2.
+Proof.
+  intros H IHb Hob IHl st g Hi Hw He HP HK.
+  destruct (lp_body f c tg body h el st g Hi Hw He sg t1 t2 ob s1 HP HK H IHb) as (J & K1 & Q).
+  assert (HP1 : P g (nb st) 0 s1) by (destruct Hob; subst; exact Q).
+  destruct (IHl st g Hi Hw He HP1 K1) as [J3 P3]. split; auto.
+  rewrite app_assoc. apply Forall_app; auto.
+Qed.
+Lemma sim_loop_break f c tg body h el sg t1 t2 s1 : head_eval f sg c t1 true ->
+  sim_stmt body (if f then bind tg sg else sg) t2 OBrk s1 ->
+  sim_loop f c tg body h el sg (t1 ++ t2) ONorm s1.
+Proof.
+  intros H IHb st g Hi Hw He HP HK.
+  destruct (lp_body f c tg body h el st g Hi Hw He sg t1 t2 OBrk s1 HP HK H IHb) as (J & K1 & Q).
+  split; auto. split; auto.
+Qed.
+Lemma sim_loop_prop f c tg body h el sg t1 t2 ob s1 : head_eval f sg c t1 true ->
+  sim_stmt body (if f then bind tg sg else sg) t2 ob s1 -> ob = ORet \/ ob = OExc ->
+  sim_loop f c tg body h el sg (t1 ++ t2) ob s1.
+Proof.
+  intros H IHb Hob st g Hi Hw He HP HK.
+  destruct (lp_body f c tg body h el st g Hi Hw He sg t1 t2 ob s1 HP HK H IHb) as (J & K1 & Q).
+  split; auto. split; auto. destruct Hob; subst; auto.
+Qed.
+
+(* entering the loop statement *)
+Lemma loop_enter f c tg body h el st g sg : inv st -> ext (visit true (Loop f c tg body h el) st) g ->
+  at_cur g st sg -> P g (nb st) 0 sg.
+Proof.
+  intros Hi He (b & Hc & HP). eapply P_edge_ext; [|exact He|exact HP].
+  rewrite lp_final. simpl. apply (ext_edges (nextblock st)).
+  - eapply ext_trans; [|apply (R_ext 0), lp_R89; auto; lia].
+    eapply ext_trans; [|apply (R_ext 0), lp_R78; auto; lia].
+    eapply ext_trans; [|apply (R_ext 0), lp_R67; auto; lia].
+    eapply ext_trans; [|apply (R_ext 0), lp_R56; auto; lia].
+    eapply ext_trans; [|apply (R_ext 0), lp_R45; auto; lia].
+    eapply ext_trans; [|apply (R_ext 0), lp_R24; auto; lia].
+    apply (R_ext 0). apply R_newblock, R0. exact (R_inv 0 st _ (R_nextblock _ _ _ (R0 _ Hi))).
+  - unfold nextblock, nextblock_from, link_cur. simpl. rewrite Hc. simpl. auto.
+Qed.
+
+Lemma sim_while c tg body h el sg tr o s2 : sim_loop false c tg body h el sg tr o s2 ->
+  sim_stmt (Loop false c tg body h el) sg tr o s2.
+Proof.
+  intros IH st g Hi Hw He HA HK. apply IH; auto. eapply loop_enter; eauto.
+Qed.
+Lemma sim_for_exc c tg body h el sg tr : eval_refs sg c tr false ->
+  sim_stmt (Loop true c tg body h el) sg tr OExc sg.
+Proof.
+  intros Hev st g Hi Hw He HA HK. split; [|split; auto].
+  eapply lp_head_ev; eauto. eapply loop_enter; eauto.
+Qed.
+Lemma sim_for c tg body h el sg t1 t2 o s2 : eval_refs sg c t1 true ->
+  sim_loop true c tg body h el sg t2 o s2 -> sim_stmt (Loop true c tg body h el) sg (t1 ++ t2) o s2.
+Proof.
+  intros Hev IH st g Hi Hw He HA HK. pose proof (loop_enter _ _ _ _ _ _ _ _ _ Hi He HA) as HP.
+  destruct (IH st g Hi Hw He HP HK) as [J2 P2]. split; auto.
+  apply Forall_app; split; auto. eapply lp_head_ev; eauto.
+Qed.
